@@ -497,7 +497,7 @@ func (e *Exec) convert(x Value, t types.Type) Value {
 		fb := from.Underlying().(*types.Basic).Kind()
 		tb := t.Underlying().(*types.Basic).Kind()
 		if tb == types.Float32 && fb != types.Float32 {
-			k := e.freshConst("fk32", "Int")
+			k := e.define("fk32", "Int", "(fk_32 "+fk(x)+" "+fv(x)+")")
 			r := e.fl.round32(e, fv(x))
 			e.axiom(fmt.Sprintf("(and (=> (not (= %s 0)) (= %s %s)) (=> (= %s 0) (or (= %s 0) (= %s 1) (= %s 2))) (=> (and (= %s 0) (<= (absr %s) 16777216.0)) (= %s 0)))", fk(x), k, fk(x), fk(x), k, k, k, fk(x), fv(x), k))
 			e.fl.addPoint(e, k, r)
